@@ -47,19 +47,28 @@ def Oracle.fmtV (ω : Oracle) : Cell → Str
   | .bool false => sFalse
   | .time t => ω.fmtTime t
 
-def IntTy.name : IntTy → String
-  | .int => "int" | .int8 => "int8" | .int16 => "int16" | .int32 => "int32" | .int64 => "int64"
-  | .uint => "uint" | .uint8 => "uint8" | .uint16 => "uint16" | .uint32 => "uint32" | .uint64 => "uint64"
+/-- the Go type name, as bytes -/
+def IntTy.name : IntTy → Str
+  | .int => [105, 110, 116]
+  | .int8 => [105, 110, 116, 56]
+  | .int16 => [105, 110, 116, 49, 54]
+  | .int32 => [105, 110, 116, 51, 50]
+  | .int64 => [105, 110, 116, 54, 52]
+  | .uint => [117, 105, 110, 116]
+  | .uint8 => [117, 105, 110, 116, 56]
+  | .uint16 => [117, 105, 110, 116, 49, 54]
+  | .uint32 => [117, 105, 110, 116, 51, 50]
+  | .uint64 => [117, 105, 110, 116, 54, 52]
 
 /-- `fmt.Sprintf("%T", cell)`. -/
 def Cell.typeName : Cell → Str
   | .nil => sNil
-  | .int t _ => ofString t.name
-  | .flt true _ => ofString "float32"
-  | .flt false _ => ofString "float64"
-  | .str _ => ofString "string"
-  | .bool _ => ofString "bool"
-  | .time _ => ofString "time.Time"
+  | .int t _ => t.name
+  | .flt true _ => [102, 108, 111, 97, 116, 51, 50]
+  | .flt false _ => [102, 108, 111, 97, 116, 54, 52]
+  | .str _ => [115, 116, 114, 105, 110, 103]
+  | .bool _ => [98, 111, 111, 108]
+  | .time _ => [116, 105, 109, 101, 46, 84, 105, 109, 101]
 
 /-- The value of an integer of Go type `ty` converted to `float64` (exact below 2^53; the harness keeps
 integers in that range). -/
